@@ -31,6 +31,8 @@
 
 #include <nlohmann/json.hpp>
 
+#include <hdf5.h>
+
 #include <votca/csg/bead.h>
 #include <votca/csg/imcio.h>
 #include <votca/csg/interaction.h>
@@ -142,6 +144,114 @@ json jnum(double v) {
   return json(v);
 }
 
+// ---- H5MD files (votca has a reader only): written here through the HDF5 C API ------------
+// layout as read by H5MDTrajectoryReader: /h5md (version 1.1) [/h5md/modules/units],
+// /particles/atoms/{position,velocity,force}/value [T][N][3] (+ fixed-length string attribute
+// "unit" on the dataset), /particles/atoms/box (attribute dimension = 3) with either a dataset
+// edges[3] (time-independent box) or a group edges with value[T][3] (time-dependent box).
+struct H5Frame {
+  double box[3];
+  std::vector<double> pos, vel, f;
+};
+struct H5Cfg {
+  bool timedep = true;  // box
+  bool angstrom = false;  // units module on, lengths stored in Angstrom ("A", "A ps-1")
+};
+static void h5check(hid_t id, const char *what) {
+  if (id < 0) throw std::runtime_error(std::string("driver: hdf5 ") + what);
+}
+static void h5strattr(hid_t obj, const char *name, const std::string &v) {
+  hid_t t = H5Tcopy(H5T_C_S1);
+  H5Tset_size(t, v.size());
+  H5Tset_strpad(t, H5T_STR_NULLPAD);
+  hid_t sp = H5Screate(H5S_SCALAR);
+  hid_t a = H5Acreate2(obj, name, t, sp, H5P_DEFAULT, H5P_DEFAULT);
+  h5check(a, "attribute");
+  H5Awrite(a, t, v.c_str());
+  H5Aclose(a);
+  H5Sclose(sp);
+  H5Tclose(t);
+}
+static void h5vec(hid_t grp, const char *name, hsize_t T, hsize_t N, const std::vector<double> &data,
+                  const std::string &unit) {
+  hid_t g = H5Gcreate2(grp, name, H5P_DEFAULT, H5P_DEFAULT, H5P_DEFAULT);
+  h5check(g, name);
+  hsize_t dims[3] = {T, N, 3};
+  hid_t sp = H5Screate_simple(3, dims, nullptr);
+  hid_t ds = H5Dcreate2(g, "value", H5T_NATIVE_DOUBLE, sp, H5P_DEFAULT, H5P_DEFAULT, H5P_DEFAULT);
+  h5check(ds, "dataset");
+  H5Dwrite(ds, H5T_NATIVE_DOUBLE, H5S_ALL, H5S_ALL, H5P_DEFAULT, data.data());
+  if (!unit.empty()) h5strattr(ds, "unit", unit);
+  H5Dclose(ds);
+  H5Sclose(sp);
+  H5Gclose(g);
+}
+static void writeH5MD(const std::string &file, const H5Cfg &cfg, const std::vector<H5Frame> &fr, Index n,
+                      bool hv, bool hf) {
+  const double L = cfg.angstrom ? 10.0 : 1.0;  // nm -> file unit
+  hid_t f = H5Fcreate(file.c_str(), H5F_ACC_TRUNC, H5P_DEFAULT, H5P_DEFAULT);
+  h5check(f, "create");
+  hid_t g = H5Gcreate2(f, "h5md", H5P_DEFAULT, H5P_DEFAULT, H5P_DEFAULT);
+  int ver[2] = {1, 1};
+  hsize_t two = 2;
+  hid_t sp = H5Screate_simple(1, &two, nullptr);
+  hid_t a = H5Acreate2(g, "version", H5T_NATIVE_INT, sp, H5P_DEFAULT, H5P_DEFAULT);
+  H5Awrite(a, H5T_NATIVE_INT, ver);
+  H5Aclose(a);
+  H5Sclose(sp);
+  if (cfg.angstrom) {
+    hid_t m = H5Gcreate2(g, "modules", H5P_DEFAULT, H5P_DEFAULT, H5P_DEFAULT);
+    hid_t u = H5Gcreate2(m, "units", H5P_DEFAULT, H5P_DEFAULT, H5P_DEFAULT);
+    H5Gclose(u);
+    H5Gclose(m);
+  }
+  H5Gclose(g);
+  hid_t p = H5Gcreate2(f, "particles", H5P_DEFAULT, H5P_DEFAULT, H5P_DEFAULT);
+  hid_t at = H5Gcreate2(p, "atoms", H5P_DEFAULT, H5P_DEFAULT, H5P_DEFAULT);
+  hsize_t T = fr.size();
+  std::vector<double> pos, vel, frc;
+  for (const H5Frame &x : fr) {
+    for (double v : x.pos) pos.push_back(v * L);
+    for (double v : x.vel) vel.push_back(v * L);
+    for (double v : x.f) frc.push_back(v);
+  }
+  h5vec(at, "position", T, hsize_t(n), pos, cfg.angstrom ? "A" : "nm");
+  if (hv) h5vec(at, "velocity", T, hsize_t(n), vel, cfg.angstrom ? "A ps-1" : "nm ps-1");
+  if (hf) h5vec(at, "force", T, hsize_t(n), frc, "kJ mol-1 nm-1");
+  hid_t b = H5Gcreate2(at, "box", H5P_DEFAULT, H5P_DEFAULT, H5P_DEFAULT);
+  int dim = 3;
+  sp = H5Screate(H5S_SCALAR);
+  a = H5Acreate2(b, "dimension", H5T_NATIVE_INT, sp, H5P_DEFAULT, H5P_DEFAULT);
+  H5Awrite(a, H5T_NATIVE_INT, &dim);
+  H5Aclose(a);
+  H5Sclose(sp);
+  if (cfg.timedep) {
+    hid_t e = H5Gcreate2(b, "edges", H5P_DEFAULT, H5P_DEFAULT, H5P_DEFAULT);
+    hsize_t d2[2] = {T, 3};
+    sp = H5Screate_simple(2, d2, nullptr);
+    hid_t ds = H5Dcreate2(e, "value", H5T_NATIVE_DOUBLE, sp, H5P_DEFAULT, H5P_DEFAULT, H5P_DEFAULT);
+    std::vector<double> bx;
+    for (const H5Frame &x : fr)
+      for (int k = 0; k < 3; ++k) bx.push_back(x.box[k] * L);
+    H5Dwrite(ds, H5T_NATIVE_DOUBLE, H5S_ALL, H5S_ALL, H5P_DEFAULT, bx.data());
+    H5Dclose(ds);
+    H5Sclose(sp);
+    H5Gclose(e);
+  } else {
+    hsize_t three = 3;
+    sp = H5Screate_simple(1, &three, nullptr);
+    hid_t ds = H5Dcreate2(b, "edges", H5T_NATIVE_DOUBLE, sp, H5P_DEFAULT, H5P_DEFAULT, H5P_DEFAULT);
+    double bx[3] = {fr.at(0).box[0] * L, fr.at(0).box[1] * L, fr.at(0).box[2] * L};
+    H5Dwrite(ds, H5T_NATIVE_DOUBLE, H5S_ALL, H5S_ALL, H5P_DEFAULT, bx);
+    H5Dclose(ds);
+    H5Sclose(sp);
+  }
+  H5Gclose(b);
+  H5Gclose(at);
+  H5Gclose(p);
+  H5Fclose(f);
+}
+
 // a reader object owned through whichever factory created it; classes implementing both
 // interfaces (GROReader, PDBReader, XYZReader, LAMMPSDumpReader) can be used either way
 struct RObj {
@@ -214,6 +324,11 @@ int main() {
   std::unique_ptr<TrajectoryWriter> writer, idleWriter;  // idle: closed object kept for re-use
   RObj readers[2], idleReaders[2];
   RObj idleTop;  // the object that served the last ReadTopology
+  std::unique_ptr<Topology> tgts[3];  // further Topology objects a frame can be delivered into
+  H5Cfg h5cfg;
+  bool h5open = false;
+  std::string h5file;
+  std::vector<H5Frame> h5frames;
   bool hv = false, hf = false;
 
   std::string line;
@@ -285,14 +400,45 @@ int main() {
         std::string file;
         int app, reuse = 0;
         in >> file >> app >> reuse;
-        if (reuse) {  // the SAME writer object that wrote (and closed) the previous file
+        if (file.size() > 3 && file.substr(file.size() - 3) == ".h5") {
+          if (app) throw std::runtime_error("driver: no append for h5md");
+          h5open = true;
+          h5file = file;
+          h5frames.clear();
+        } else if (reuse) {  // the SAME writer object that wrote (and closed) the previous file
           if (!idleWriter) throw std::runtime_error("driver: no writer object to re-use");
           writer = std::move(idleWriter);
         } else {
           writer = TrjWriterFactory().Create(file);
         }
-        if (!writer) throw std::runtime_error("driver: no writer for " + file);
-        writer->Open(file, app != 0);
+        if (!h5open) {
+          if (!writer) throw std::runtime_error("driver: no writer for " + file);
+          writer->Open(file, app != 0);
+        }
+        res["ok"] = true;
+      } else if (cmd == "h5mode") {
+        std::string box;
+        int ang;
+        in >> box >> ang;
+        h5cfg.timedep = (box == "timedep");
+        h5cfg.angstrom = ang != 0;
+        res["ok"] = true;
+      } else if (cmd == "wwrite" && h5open) {
+        H5Frame fr;
+        for (int k = 0; k < 3; ++k) fr.box[k] = wt->getBox()(k, k);
+        for (Index i = 0; i < wt->BeadCount(); ++i) {
+          Bead *b = wt->getBead(i);
+          for (int k = 0; k < 3; ++k) fr.pos.push_back(b->getPos()[k]);
+          if (hv)
+            for (int k = 0; k < 3; ++k) fr.vel.push_back(b->getVel()[k]);
+          if (hf)
+            for (int k = 0; k < 3; ++k) fr.f.push_back(b->getF()[k]);
+        }
+        h5frames.push_back(fr);
+        res["ok"] = true;
+      } else if (cmd == "wclose" && h5open) {
+        writeH5MD(h5file, h5cfg, h5frames, wt->BeadCount(), hv, hf);
+        h5open = false;
         res["ok"] = true;
       } else if (cmd == "wwrite") {
         writer->Write(wt.get());
@@ -312,6 +458,11 @@ int main() {
         Index n;
         in >> n;
         rt.reset(new Topology());
+        if (slot == 0) {
+          tgts[1].reset();  // copies belong to the topology they were made from
+          tgts[2].reset();
+        }
+        rt->setParticleGroup("atoms");  // needed by the h5md reader, ignored by the others
         rt->CreateResidue("RR");
         rt->RegisterBeadType("X");
         for (Index i = 0; i < n; ++i) {
@@ -341,6 +492,32 @@ int main() {
         bool r = (cmd == "rfirst") ? reader.traj()->FirstFrame(*rt) : reader.traj()->NextFrame(*rt);
         res = dumpTop(*rt, false);
         res["ret"] = r;
+      } else if (cmd == "rcopy") {
+        // another Topology object with the same beads, made as the threaded applications make the
+        // topologies of their workers (no coordinates, box copied)
+        int k;
+        in >> k;
+        if (k < 1 || k > 2 || !rts[0]) throw std::runtime_error("driver: bad rcopy");
+        tgts[k].reset(new Topology());
+        tgts[k]->CopyTopologyData(rts[0].get());
+        tgts[k]->setParticleGroup(rts[0]->getParticleGroup());
+        res["ok"] = true;
+      } else if (cmd == "rfirstto" || cmd == "rnextto") {
+        // deliver the frame into Topology object k (0: the reader's own topology, 1/2: copies);
+        // all objects are dumped, so that a write into an object that was not passed is visible
+        int k;
+        in >> k;
+        Topology *t = (k == 0) ? rts[0].get() : tgts[k].get();
+        if (!t) throw std::runtime_error("driver: no such target topology");
+        bool r = (cmd == "rfirstto") ? reader.traj()->FirstFrame(*t) : reader.traj()->NextFrame(*t);
+        res = dumpTop(*t, false);
+        res["ret"] = r;
+        json all = json::array();
+        for (int j = 0; j < 3; ++j) {
+          Topology *o = (j == 0) ? rts[0].get() : tgts[j].get();
+          all.push_back(o ? dumpTop(*o, false) : json());
+        }
+        res["all"] = all;
       } else if (cmd == "rclose") {
         reader.traj()->Close();
         idleReader = std::move(reader);
@@ -509,6 +686,7 @@ int main() {
     idleReaders[k].reset();
   }
   idleTop.reset();
+  for (int k = 0; k < 3; ++k) tgts[k].reset();
   {
   }
   std::cout.rdbuf(out.rdbuf());
